@@ -250,7 +250,7 @@ var responseSpecs = []layerSpec{
 		Want: map[string][]string{
 			"Instantaneous": {"{d1[7:0],d0[7:0]}"}, "Min": {"{d3[7:0],d2[7:0]}"}, "Max": {"{d5[7:0],d4[7:0]}"}, "Avg": {"{d7[7:0],d6[7:0]}"},
 			"Timestamp": {"unix:{d11[7:0],d10[7:0],d9[7:0],d8[7:0]}"},
-			"Period": {"lin(1000000·{d15[7:0],d14[7:0],d13[7:0],d12[7:0]})"}, "Active": {"d16[6]"},
+			"Period":    {"lin(1000000·{d15[7:0],d14[7:0],d13[7:0],d12[7:0]})"}, "Active": {"d16[6]"},
 		}},
 	{Pkg: "pkg/ipmi", Type: "GetChannelCipherSuitesRsp", Method: "DecodeFromBytes", Ref: "IPMI v2.0 §22.15 (channel number, then up to 16 bytes of cipher suite record data, verbatim)",
 		Want: map[string][]string{"Channel": {"d0[7:0]"}, "CipherSuiteRecordsChunk": {"d[1:17]", "d[1:+len(data) -1]"}}},
